@@ -135,6 +135,8 @@ type Fact struct {
 	Atom  ast.Expr // an expression that is not !, &&, ||, or parenthesised
 	Truth bool
 	At    ast.Node // the if/switch statement that established it
+	// LoopCond: the fact is the condition of an enclosing for loop (true at the start of the iteration)
+	LoopCond bool
 }
 
 func stripParens(e ast.Expr) ast.Expr {
@@ -391,6 +393,17 @@ func (v *FnView) factsAt(target ast.Node, stopAtFuncLit bool) []Fact {
 		case *ast.FuncLit:
 			if stopAtFuncLit {
 				return facts
+			}
+		case *ast.ForStmt:
+			// inside the body of `for …; cond; …` the condition held when the iteration started; it is only
+			// usable for variables the body does not change before the use, which the callers that need it check
+			if p.Cond != nil && child == ast.Node(p.Body) {
+				var fs []Fact
+				decompose(p.Cond, true, p, &fs)
+				for i := range fs {
+					fs[i].LoopCond = true
+				}
+				facts = append(facts, fs...)
 			}
 		case *ast.BinaryExpr:
 			// short-circuit evaluation: inside the right operand of `a && b`, a holds; of `a || b`, a does not
